@@ -56,6 +56,34 @@ impl Property for C15 {
             // plan trees-stripped: no-namespace elements below a default namespace without
             // their protecting xmlns="" (API-only layout; the serializer undeclares on the fly)
             gen::strip_undeclarations(&mut doc, src);
+            // a prefix (other than xml) bound to the XML namespace: nothing XML can spell, but the API
+            // allows it and the serializer simply leaves such a declaration out
+            if src.ratio(1, 6) {
+                fn bind_to_xml(n: &mut ANode, src: &mut Src, done: &mut bool) {
+                    if *done {
+                        return;
+                    }
+                    if let ANode::Element(e) = n {
+                        if src.ratio(1, 3) {
+                            let p = ["p", "q", "n0"][src.choice(3)];
+                            e.decls.retain(|(dp, _)| dp != p);
+                            e.decls.push((p.to_string(), crate::model::XML_NS.to_string()));
+                            *done = true;
+                            return;
+                        }
+                    }
+                    if let Some(ch) = n.children_mut() {
+                        for c in ch.iter_mut() {
+                            bind_to_xml(c, src, done);
+                        }
+                    }
+                }
+                let mut done = false;
+                bind_to_xml(&mut doc, src, &mut done);
+                if done {
+                    ctx.label("prefix_bound_to_the_xml_namespace");
+                }
+            }
         }
         let mut xot = Xot::new();
         let mut hs = vec![];
